@@ -33,7 +33,7 @@ theorem maven_qualifiers :
 /-- `ALIASES.get(buf, buf)` on the keys; the keys are the only strings the model rewrites -/
 theorem maven_aliases :
     (∀ p ∈ Gen.mavenAliases, Maven.alias p.1.toList = p.2.toList) ∧
-    Gen.mavenAliases.map (·.1) = ["ga", "final", "cr"] := by decide
+    Gen.mavenAliases.map (·.1) = ["cr", "final", "ga"] := by decide
 
 /-- `characters_order` of debian: every character has the same rank; `""` is the end-of-string rank -/
 theorem deb_characters_order :
@@ -49,9 +49,5 @@ theorem deb_operators : Gen.debOperators = [
 
 /-- `all_legacy_base` -/
 theorem openssl_legacy_bases : Gen.legacyOpensslBases.map String.toList = Openssl.Legacy.legacyBases := by decide
-
-/-- the dicts of `split_req_bracket_notation` -/
-theorem snyk_brackets :
-    Gen.snykBracketFront = [("(", ">"), ("[", ">=")] ∧ Gen.snykBracketRear = [(")", "<"), ("]", "<=")] := by decide
 
 end Univers.Tables
